@@ -24,8 +24,12 @@ def seeded():
         demo = re.search(r'demo: unchanged exit=(\d+) mutant exit=(\d+)', res)
         tests = re.findall(r'failing-set=(\w+)', res)
         det = []
-        for m in re.finditer(r'check (C\d+) quick: rc=(\d+) kinds: (.*)', res):
-            det.append(f"{m.group(1)}: {'DETECTED (' + m.group(3).strip() + ')' if m.group(2) == '1' else 'not detected'}")
+        for m in re.finditer(r'(re)?check (C\d+) quick: rc=(\d+) kinds: (.*)', res):
+            kinds = m.group(4).strip().split()
+            shown = ', '.join(kinds[:3]) + (' ...' if len(kinds) > 3 else '')
+            verdict = 'DETECTED (' + shown + ')' if m.group(3) == '1' else \
+                ('harness error (history dependent, not reproducible case by case)' if m.group(3) == '2' else 'not detected')
+            det.append(('after strengthening the check: ' if m.group(1) else '') + f"{m.group(2)}: {verdict}")
         needs = str(meta.get('needs_to_manifest', ''))[:300].replace('\n', ' ').replace('|', '/')
         out.append(f"| {name} | {meta.get('property', name[:3])} | {needs} | {demo.group(1) + ' / ' + demo.group(2) if demo else '?'} | {('same 8 failures' if tests and tests[-1] == 'same' else 'DIFFERENT' if tests else 'not run')} | {'; '.join(det)} |")
     return '\n'.join(out)
